@@ -2007,3 +2007,42 @@ Qed.
 
 Lemma visited_at_report_journal o p : p_temp p = false -> visited_at_report o p = sel o p.
 Proof. intros H. unfold visited_at_report. rewrite (survives_clear_journal p H). apply orb_false_r. Qed.
+
+(* ------------------------------ the name-ordered rows of a collapsed transaction *)
+
+Lemma ins_row_perm kv l : Permutation (ins_row kv l) (kv :: l).
+Proof.
+  induction l as [|x l IH]; cbn [ins_row]; [reflexivity|].
+  destruct (str_compare _ _); try reflexivity. rewrite IH. apply perm_swap.
+Qed.
+
+Lemma sort_rows_perm l : Permutation (sort_rows l) l.
+Proof.
+  induction l as [|x l IH]; cbn [sort_rows]; [reflexivity|]. rewrite ins_row_perm, IH. reflexivity.
+Qed.
+
+Lemma sumq_perm {A} (g : A -> Q) l l' : Permutation l l' -> sumq g l == sumq g l'.
+Proof.
+  induction 1; cbn [sumq]; try reflexivity.
+  - rewrite IHPermutation. reflexivity.
+  - ring.
+  - rewrite IHPermutation1. exact IHPermutation2.
+Qed.
+
+Lemma mapq_sort c P g : mapq c P (sort_rows g) == mapq c P g.
+Proof. unfold mapq. apply sumq_perm, sort_rows_perm. Qed.
+
+Lemma bal_eq_reg_depth_rows ord ord' o ps n a v gs c :
+  (Z.of_nat (length a) <= n)%Z ->
+  total_of ord o ps a = Ok v ->
+  collapsed_rows ord' n o ps = Ok gs ->
+  den v c == sumq (fun g => mapq c (is_prefix a) g) gs.
+Proof.
+  intros Hl Hv. unfold collapsed_rows.
+  destruct (collapsed ord' n o ps) as [gs0|] eqn:E; cbn [bind]; [|discriminate].
+  intros [= <-]. rewrite (bal_eq_reg_depth_gen _ _ _ _ _ _ _ _ c Hl Hv E), sumq_map.
+  apply sumq_ext_in. intros g _. symmetry. apply mapq_sort.
+Qed.
+
+Lemma sort_rows_keys g k : In k (map fst (sort_rows g)) -> In k (map fst g).
+Proof. apply Permutation_in, Permutation_map, sort_rows_perm. Qed.
